@@ -35,6 +35,8 @@ type C16Entry struct {
 	Index     string `json:"index"`
 	IsDefault string `json:"is_default"`
 	Location  string `json:"location"`
+	// ResponseLocation: the optional attribute of the metadata schema's endpoint type; the selection returns the Location
+	ResponseLocation string `json:"response_location,omitempty"`
 }
 
 type C16Case struct {
@@ -82,7 +84,7 @@ func c16Reference(acs []C16Entry, requested string) []int {
 func c16Check(c C16Case) *ev.Violation {
 	in := make([]md.IndexedEndpointType, len(c.ACS))
 	for i, e := range c.ACS {
-		in[i] = md.IndexedEndpointType{Index: e.Index, IsDefault: e.IsDefault, Binding: e.Binding, Location: e.Location}
+		in[i] = md.IndexedEndpointType{Index: e.Index, IsDefault: e.IsDefault, Binding: e.Binding, Location: e.Location, ResponseLocation: e.ResponseLocation}
 	}
 	url, binding := provider.GetAcsUrlAndBindingForResponse(in, c.Requested)
 	// a call for a binding nobody registered (the lowest-index fallback) in between must not change anything:
@@ -262,6 +264,9 @@ func genC16Case(t *rapid.T) C16Case {
 			IsDefault: rapid.SampledFrom(c16Defaults).Draw(t, "isDefault"),
 			Location:  "https://sp.example/acs/" + strconv.Itoa(i),
 		})
+		if rapid.IntRange(0, 3).Draw(t, "responselocation") == 0 {
+			c.ACS[i].ResponseLocation = "https://sp.example/acs-response/" + strconv.Itoa(i)
+		}
 	}
 	if rapid.IntRange(0, 2).Draw(t, "reqindex") == 0 {
 		c.ReqIndex = rapid.SampledFrom([]string{"0", "1", "2", "7", "65535", "3"}).Draw(t, "reqindexv")
@@ -291,7 +296,7 @@ func c16EndToEnd(c C16Case) *ev.Violation {
 			if d == "" {
 				d = A
 			}
-			out.ACS = append(out.ACS, world.ACSSpec{Binding: e.Binding, Location: e.Location, Index: e.Index, IsDefault: d})
+			out.ACS = append(out.ACS, world.ACSSpec{Binding: e.Binding, Location: e.Location, Index: e.Index, IsDefault: d, ResponseLocation: e.ResponseLocation})
 		}
 		return out
 	}
